@@ -13,8 +13,9 @@ META = {
                   'reconstructs (folding the emitted update and error_update messages over the initial value-or-error gives the cached '
                   'value-or-error, after every prefix), order_preserved, never_phantom, recovery_announced(+_trace), change_announced; '
                   'and for all schedules of any number of threads over the small-step system cut at the lock / store / notify primitives: '
-                  'one_thread_inside, interleaving_atomic (every connection\'s per-parameter log is the message list of a sequential run '
-                  'of the completed calls), quiescent_is_sequential, conc_ok.  The models are tied to modulebase.announceUpdate, the '
+                  'one_thread_inside, sub_lock_nested, interleaving_atomic (every connection\'s per-parameter log is the message list of a '
+                  'sequential run of the completed calls), hist_is_interleaving (those calls are a shuffle of the thread programs), '
+                  'quiescent_is_sequential, conc_ok.  The models are tied to modulebase.announceUpdate, the '
                   'read/write wrappers, Parameter.__set__/finish and dispatcher.make_update/broadcast_event by a correspondence run '
                   '(sequential histories + labelled scheduled runs) and the Lean monitors judge every implementation trace.',
     'level_note': 'Trusted: Lean kernel + axioms propext/Quot.sound; hypothesis ExportExact (values Python\'s != does not tell apart '
@@ -561,6 +562,9 @@ def impl_conc(case, errs, tables, policy):
             listeners.update(node.dispatcher._active_connections)
             visit_order = [c.cid for c in listeners]
             roles = {m.updateLock.name: 'U', m.accessLock.name: 'A'}
+            sublock = getattr(node.dispatcher, '_subscription_lock', None)
+            if sublock is not None:
+                roles[sublock.name] = 'S'
 
             def runprog(prog):
                 for pid, op in prog:
@@ -684,6 +688,10 @@ def impl_builtin(case):
                     if isinstance(r, BaseException):
                         raise r
                     return r
+            if case['which'] == 'persistentw':      # the same with a write_p (loadParameters writes to the hardware)
+                class PM(PM):
+                    def write_p(self, value):
+                        return value
             node = Node({'m': {'cls': PM, 'description': 'x'}}, omit_unchanged_within=case['gw'],
                         general={'logdir': pathlib.Path(tmp)})
         m = node.modules['m']
@@ -824,7 +832,7 @@ def run(ctx):
     # ---------------- framework drivers that store into the cache themselves ----------------
     bcases = list(builtin_corpus)
     for _ in range(ctx.budget(60, 300)):
-        bcases.append(gen_builtin(rng, rng.choice(['sim', 'persistent'])))
+        bcases.append(gen_builtin(rng, rng.choice(['sim', 'persistent', 'persistentw'])))
     bruns = [impl_builtin(c) for c in bcases]
     answers = ctx.driver.batch([{'p': 'C05', 'k': 'judge_seq', 'init': r['init_x'],
                                  'trace': [{'msgs': [ve for ve, _ in o['msgs']], 'cache': o['cache_x']} for o in r['outs']]}
